@@ -50,7 +50,8 @@ pub fn run_case(w: &[&str]) -> Option<String> {
     if w.len() < 13 || w[0] != "lr" {
         return None;
     }
-    let opts = parse_opts(w[4], w[5])?;
+    let mut opts = parse_opts(w[4], w[5])?;
+    opts.recovery = false; // the LR parser has no recovery; replies are always printed in full
     let g = Gram::parse(w[7], w[8])?;
     let k: usize = w[10].parse().ok()?;
     let po = parse_par_flags(w[11])?;
